@@ -84,7 +84,9 @@ Record obs := mkObs {
   o_spawned : nat;
   o_chunks : list nat;                 (* chunk size handed to each worker *)
   o_pulls : list (list (nat * nat));   (* successful pulls (begin, length) per worker *)
-  o_sequential : bool
+  o_sequential : bool;
+  o_seen : list (list nat);            (* positions processed per worker, in order *)
+  o_complete : bool                    (* the schedule ran the computation to completion *)
 }.
 
 Record case := mkCase {
@@ -95,7 +97,9 @@ Record case := mkCase {
   c_avail : N;                         (* available_parallelism *)
   c_sched : list nat;                  (* schedule prefix; completed round-robin *)
   c_fuel : nat;                        (* round-robin rounds after the prefix *)
-  c_panic : option (nat * Z)           (* the closure with this identity panics on this argument *)
+  c_panic : option (nat * Z);          (* the closure with this identity panics on this argument *)
+  c_macro : bool                       (* the schedule is a macro-schedule (deterministic scheduler of the
+                                          harness): each pick runs a thread up to its next yield point *)
 }.
 
 Definition task_of (t : terminal) : ParTask :=
@@ -197,6 +201,90 @@ Fixpoint complete (len : nat) (known : bool) (stop panics : nat -> bool) (r : Ru
              (run len known stop panics (m_dospawn r) (m_nextc r) s (seq 0 (S (length (ws s)))))
   end.
 
+(** *** macro-steps: what one pick of the harness's deterministic scheduler lets a thread do.
+    A worker yields right before evaluating an element (and when it is finished); the spawner
+    yields right before every [has_more] read.  Each macro-step is a few micro-steps of the same
+    thread, so every macro-schedule is a micro-schedule and the theorems apply to it. *)
+Definition is_yield (w : worker) : bool :=
+  match ph w with Holding _ (S _) | Done | Dead => true | _ => false end.
+
+Local Open Scope nat_scope.
+Section Macro.
+Variables (len : nat) (known : bool) (stop panics : nat -> bool) (r : Runner).
+Notation mstep := (step len known stop panics (m_dospawn r) (m_nextc r)).
+
+Fixpoint wmacro (fuel : nat) (s : sys) (i : nat) : sys :=
+  match fuel with
+  | O => s
+  | S f =>
+      let s' := mstep s (S i) in
+      match nth_error (ws s') i with
+      | Some w => if is_yield w then s' else wmacro f s' i
+      | None => s'
+      end
+  end.
+
+Definition smacro (s : sys) : sys :=
+  let s1 := mstep s 0 in
+  match sph s1 with SpFinal => mstep s1 0 | _ => s1 end.
+
+Definition macro_step (s : sys) (t : nat) : sys :=
+  match t with 0 => smacro s | S i => wmacro 4 s i end.
+
+Definition macro_run (s : sys) (sched : list nat) : sys := fold_left macro_step sched s.
+
+(** the micro-schedule a macro-schedule stands for *)
+Fixpoint wmacro_picks (fuel : nat) (s : sys) (i : nat) : list nat :=
+  match fuel with
+  | O => []
+  | S f =>
+      let s' := mstep s (S i) in
+      S i :: match nth_error (ws s') i with
+             | Some w => if is_yield w then [] else wmacro_picks f s' i
+             | None => []
+             end
+  end.
+Definition macro_picks (s : sys) (t : nat) : list nat :=
+  match t with
+  | 0 => let s1 := mstep s 0 in match sph s1 with SpFinal => [0; 0] | _ => [0] end
+  | S i => wmacro_picks 4 s i
+  end.
+Fixpoint expand (s : sys) (sched : list nat) : list nat :=
+  match sched with
+  | [] => []
+  | t :: rest => macro_picks s t ++ expand (macro_step s t) rest
+  end.
+
+Lemma wmacro_is_run fuel s i :
+  wmacro fuel s i = run len known stop panics (m_dospawn r) (m_nextc r) s (wmacro_picks fuel s i).
+Proof.
+  revert s; induction fuel as [|f IH]; intros s; [reflexivity|].
+  cbn [wmacro wmacro_picks Machine.run fold_left].
+  destruct (nth_error (ws (mstep s (S i))) i) as [w|]; [|reflexivity].
+  destruct (is_yield w); [reflexivity|]. apply IH.
+Qed.
+
+Lemma macro_step_is_run s t :
+  macro_step s t = run len known stop panics (m_dospawn r) (m_nextc r) s (macro_picks s t).
+Proof.
+  destruct t as [|i]; cbn [macro_step macro_picks].
+  - unfold smacro. destruct (sph (mstep s 0)); reflexivity.
+  - apply wmacro_is_run.
+Qed.
+
+(** every macro-schedule is a micro-schedule *)
+Theorem macro_run_is_run s sched :
+  macro_run s sched = run len known stop panics (m_dospawn r) (m_nextc r) s (expand s sched).
+Proof.
+  revert s; induction sched as [|t rest IH]; intros s; [reflexivity|].
+  cbn [macro_run fold_left expand]. unfold Machine.run. rewrite fold_left_app.
+  fold (run len known stop panics (m_dospawn r) (m_nextc r) s (macro_picks s t)).
+  rewrite <- macro_step_is_run. apply IH.
+Qed.
+
+End Macro.
+Local Open Scope Z_scope.
+
 (** does this call list contain the panicking call? *)
 Definition hits (pt : option (nat * Z)) (l : list (nat * Z)) : bool :=
   match pt with
@@ -224,27 +312,29 @@ Definition exec (c : case) : obs :=
   let pt := c_panic c in
   if hits pt (ps_clog st) then
     (* the closure panics while the computation is being built (eager site) or inside for_each's map *)
-    mkObs RPanic params (kind_of (ps_par st0)) (ps_clog st0) (ps_consumed st0) [] 0 [] [] false
+    mkObs RPanic params (kind_of (ps_par st0)) (ps_clog st0) (ps_consumed st0) [] 0 [] [] false [] true
   else if seqmode then
     let tr := flat_map (trace p) src in
     let '(res, lg) := finish_seq t tr src p in
     mkObs (if hits pt lg then RPanic else res) params (kind_of (ps_par st0)) (ps_clog st0) (ps_consumed st0)
-          [late ++ lg] 0 [] [] true
+          [late ++ lg] 0 [] [] true [] true
   else
     let input_len := if c_known c || (0 <? ps_runs st)%nat then Some (N.of_nat n) else None in
     match runner_new params (kernel_task k t) input_len (c_avail c) with
-    | None => mkObs RPanic params (kind_of (ps_par st0)) (ps_clog st0) (ps_consumed st0) [] 0 [] [] false
+    | None => mkObs RPanic params (kind_of (ps_par st0)) (ps_clog st0) (ps_consumed st0) [] 0 [] [] false [] true
     | Some r =>
         let pe := pe_of p src in
         let stop := if is_find t then stop_of p src else (fun _ => false) in
         let known := match input_len with Some _ => true | None => false end in
         let consumed := fun i => if is_find t then calls (fst (upto_yield (pe i))) else calls (pe i) in
         let panics := fun i => hits pt (consumed i) in
-        let s0 := run n known stop panics (m_dospawn r) (m_nextc r) (init (m_c0 r)) (c_sched c) in
-        let s := complete n known stop panics r (c_fuel c) s0 in
+        let s := if c_macro c
+                 then macro_run n known stop panics r (init (m_c0 r)) (c_sched c)
+                 else complete n known stop panics r (c_fuel c)
+                        (run n known stop panics (m_dospawn r) (m_nextc r) (init (m_c0 r)) (c_sched c)) in
         let wl := ws s in
         let res := if all_doneb s && negb (any_dead s) then finish t pe n (kind_of p) wl else RPanic in
         let wlog := if is_find t then map (w_calls_find pe) wl else map (w_calls_full pe) wl in
         mkObs res params (kind_of (ps_par st0)) (ps_clog st0) (ps_consumed st0) (late :: wlog)
-              (length wl) (map csize wl) (map pulls wl) false
+              (length wl) (map csize wl) (map pulls wl) false (map seen wl) (all_doneb s)
     end.
